@@ -606,7 +606,14 @@ impl Duration {
                     resolved_options,
                     provider,
                 )?;
-                Duration::from_normalized(internal, resolved_options.largest_unit)
+                // f. If TemporalUnitCategory(largestUnit) is date, set largestUnit to hour.
+                let largest_unit = if resolved_options.largest_unit.is_date_unit() {
+                    Unit::Hour
+                } else {
+                    resolved_options.largest_unit
+                };
+                // g. Return ? TemporalDurationFromInternal(internalDuration, largestUnit).
+                Duration::from_normalized(internal, largest_unit)
             }
             // 39. Else if plainRelativeTo is not undefined, then
             Some(RelativeTo::PlainDate(plain_date)) => {
